@@ -1,0 +1,66 @@
+//go:build verif
+
+// Contracts for the deductive verifier in /verif (comment-only; never compiled into the library).
+// Syntax: see /verif/DESIGN.md section 2.4. Obligation names are <func>#<kind>:<label>.
+
+package stream
+
+//@ pkg github.com/bbockelm/cedar/stream
+
+//@ pred be32(b, i) = b[i]*16777216 + b[i+1]*65536 + b[i+2]*256 + b[i+3]
+//@ pred sealingOn(s) = s.encrypted && s.gcm != nil
+//@ pred digestsWF(s) = (s.finalSendDigest != nil ==> len(s.finalSendDigest) == 32) && (s.finalRecvDigest != nil ==> len(s.finalRecvDigest) == 32)
+//@ pred streamInv(s) = digestsWF(s) && 0 <= s.bytesRead && s.bytesRead <= len(s.receiveBuffer)
+
+//@ func (*Stream).calculateEncryptedSize
+//@   props C01 C12
+//@   pure
+//@   ensures size: result == plainSize + ite(s.encrypted && s.gcm != nil, 16 + ite(s.encryptCounter == 0, 16, 0), 0)
+
+//@ func (*Stream).grabFrame
+//@   props C01
+//@   requires n_range: 0 <= n && n <= 1048576 + 64
+//@   assigns s.frameBuf
+//@   ensures len: len(result) == n
+//@   ensures is_framebuf: n == 0 || ref(result) == ref(s.frameBuf) && off(result) == off(s.frameBuf) && ref(result) != 0
+//@   ensures cap_ok: cap(s.frameBuf) >= n
+//@   ensures keeps_or_fresh: s.frameBuf == old(s.frameBuf) || fresh(s.frameBuf)
+
+//@ func (*Stream).finalizeSendDigest
+//@   props C04 C12
+//@   requires wf: digestsWF(s)
+//@   assigns s.finalSendDigest
+//@   ensures frozen: old(s.finalSendDigest) != nil ==> s.finalSendDigest == old(s.finalSendDigest)
+//@   ensures set: s.finalSendDigest != nil && len(s.finalSendDigest) == 32
+//@   ensures zero_if_unused: old(s.finalSendDigest) == nil && !(s.sendDigest != nil && s.sendDigestWritten) ==> forall i :: 0 <= i && i < 32 ==> s.finalSendDigest[i] == 0
+//@   ensures fresh_new: old(s.finalSendDigest) == nil ==> fresh(s.finalSendDigest)
+
+//@ func (*Stream).finalizeRecvDigest
+//@   props C04 C12
+//@   requires wf: digestsWF(s)
+//@   assigns s.finalRecvDigest
+//@   ensures frozen: old(s.finalRecvDigest) != nil ==> s.finalRecvDigest == old(s.finalRecvDigest)
+//@   ensures set: s.finalRecvDigest != nil && len(s.finalRecvDigest) == 32
+//@   ensures zero_if_unused: old(s.finalRecvDigest) == nil && !(s.recvDigest != nil && s.recvDigestWritten) ==> forall i :: 0 <= i && i < 32 ==> s.finalRecvDigest[i] == 0
+//@   ensures fresh_new: old(s.finalRecvDigest) == nil ==> fresh(s.finalRecvDigest)
+
+//@ func (*Stream).encryptDataWithAAD
+//@   props C12 C01 C04
+//@   requires wf: digestsWF(s)
+//@   assigns s.finishedSendAAD, s.finalSendDigest, s.finalRecvDigest, s.encryptCounter, sealCount, sealNonce, sealAAD, sealPT, sealObj, sealOut
+//@   let sealing = old(sealingOn(s))
+//@   let ctr0 = old(s.encryptCounter)
+//@   let ivlen = ite(ctr0 == 0, 16, 0)
+//@   ensures passthrough: !sealing ==> err == nil && result == data && sealCount == old(sealCount) && s.encryptCounter == ctr0 && s.finishedSendAAD == old(s.finishedSendAAD)
+//@   ensures ctr_refuse: sealing && ctr0 == 4294967295 ==> err != nil
+//@   ensures err_nochange: err != nil ==> s.encryptCounter == ctr0 && sealCount == old(sealCount)
+//@   ensures ctr_step: sealing && err == nil ==> s.encryptCounter == ctr0 + 1 && ctr0 < 4294967295 && sealCount == old(sealCount) + 1
+//@   ensures size: sealing && err == nil ==> len(result) == len(data) + 16 + ivlen
+//@   ensures iv_once: sealing && err == nil && ctr0 == 0 ==> forall i :: 0 <= i && i < 16 ==> result[i] == s.encryptIV[i]
+//@   ensures payload: sealing && err == nil ==> len(sealOut) == len(data) + 16 && forall i :: 0 <= i && i < len(data) + 16 ==> result[ivlen + i] == sealOut[i]
+//@   ensures nonce: sealing && err == nil ==> len(sealNonce) == 16 && (forall i :: 4 <= i && i < 16 ==> sealNonce[i] == s.encryptIV[i]) && be32(sealNonce, 0) == (be32(s.encryptIV, 0) + ctr0) % 4294967296
+//@   ensures key_obj: sealing && err == nil ==> sealObj == s.gcm && sealPT == old(str(data))
+//@   ensures aad_first: sealing && err == nil && !old(s.finishedSendAAD) ==> len(sealAAD) == 64 + len(frameHeader) && (forall i :: 0 <= i && i < 32 ==> sealAAD[i] == s.finalSendDigest[i] && sealAAD[32+i] == s.finalRecvDigest[i]) && (forall j :: 0 <= j && j < len(frameHeader) ==> sealAAD[64+j] == frameHeader[j])
+//@   ensures aad_later: sealing && err == nil && old(s.finishedSendAAD) ==> len(sealAAD) == len(frameHeader) && (forall j :: 0 <= j && j < len(frameHeader) ==> sealAAD[j] == frameHeader[j])
+//@   ensures aad_flag: sealing && err == nil ==> s.finishedSendAAD
+//@   ensures digests_frozen: (old(s.finalSendDigest) != nil ==> s.finalSendDigest == old(s.finalSendDigest)) && (old(s.finalRecvDigest) != nil ==> s.finalRecvDigest == old(s.finalRecvDigest)) && digestsWF(s)
